@@ -8,7 +8,7 @@
 #
 import re
 
-from ural.patterns import QUERY_VALUE_IN_URL_TEMPLATE
+from ural.patterns import QUERY_VALUE_IN_URL_TEMPLATE, PROTOCOL_RE, CONTROL_CHARS_RE
 from ural.utils import unquote, urljoin, fix_common_query_mistakes
 
 OBVIOUS_REDIRECTS_RE = re.compile(
@@ -89,8 +89,12 @@ def infer_redirection_step(url):
             # Basic relative url
             elif potential_target.startswith("/"):
                 # NOTE: an url that cannot be parsed redirects nowhere
+                # NOTE: an url without protocol would lose its host when joined
                 try:
-                    target = urljoin(url, potential_target)
+                    if PROTOCOL_RE.match(CONTROL_CHARS_RE.sub("", url).strip()):
+                        target = urljoin(url, potential_target)
+                    else:
+                        target = urljoin("http://" + url, potential_target)[7:]
                 except ValueError:
                     target = None
 
